@@ -195,7 +195,8 @@ def run(case, ctx):
     given, truth, order = supplied_and_truth(case)
     kw = G.extract_kwargs(case)
     if case.get('bytes') and case.get('freqs') is None and case.get(
-            'form', 'list') == 'list' and isinstance(given, list):
+            'form', 'list') == 'list' and isinstance(given, list) and not any(
+                s_ is not None and s_.startswith('\ufeff') for s_ in given):
         # the same list as byte strings (every other one with a leading
         # BOM, which utf-8-sig decodes to nothing: different byte strings,
         # the same example); nulls left out
